@@ -183,6 +183,18 @@ pub fn from_int(r: &mut Rec, x: i128, also_u128: Option<u128>) {
     fu!(u64);
     fu!(u128);
     fu!(usize);
+    if x == 0 || x == 1 {
+        let b = x == 1;
+        let ex = format!("\"sc\":{}", sc_list(&[(x as u8).sc()]));
+        r.op("from_prim", "U_from_bool", &[], &[u(2)], &format!("\"ty\":\"U\",{}", ex), |g| {
+            g.u[2] = BigUint::from(b);
+            Ret::none().some(true)
+        });
+        r.op("from_prim", "I_from_bool", &[], &[i(2)], &format!("\"ty\":\"I\",{}", ex), |g| {
+            g.i[2] = BigInt::from(b);
+            Ret::none().some(true)
+        });
+    }
     if let Some(v) = also_u128 {
         let ex = format!("\"sc\":{}", sc_list(&[v.sc()]));
         r.op("from_prim", "U_from_u128", &[], &[u(2)], &format!("\"ty\":\"U\",{}", ex), |g| {
